@@ -6,7 +6,13 @@ use crate::prog::Walk;
 use crate::rng::Rng;
 
 fn storable_line(rng: &mut Rng) -> String {
-    match rng.below(16) {
+    match rng.below(17) {
+        // look-alike spellings from phones and word processors (typographic quotes around text that contains a straight
+        // quote, full-width letters and digits, mathematical operator signs, other quote marks): not BASIC - today such a
+        // line is refused; whatever a tokenizer accepts of them must still LIST to something that reads back as itself
+        16 => rng.pick(&["PRINT \u{201c}say \"hi\" to \u{201d}", "PRINT \u{201c}plain\u{201d}", "A$ = \u{201c}a\"b\u{201d} + \"c\"", "PRINT \u{2018}x\u{2019}", "PRINT \u{ab}x \"y\"\u{bb}", "PRINT \u{ff02}q\u{ff02}",
+            "\u{ff30}\u{ff32}\u{ff29}\u{ff2e}\u{ff34} 1", "PRINT \u{ff11}\u{ff12}", "X = 2 \u{d7} 3", "X = 6 \u{f7} 3", "IF A \u{2264} B THEN 10", "IF A \u{2260} B THEN 10", "X = 1 \u{2212} 2", "DATA \u{201c}a, b\u{201d}, \"c\"",
+            "REM \u{201c}quoted\u{201d} \"straight\"", "PRINT \"a\u{201d}b\"", "PRINT \u{201c}open", "PRINT `x`", "PRINT 'x \"y\"'"]).to_string(),
         0 => format!("PRINT {}", rng.pick(&["007", ".5", "1.", "00.100", "123456789012345678901234567890", "0.000000000000000000001", "1e5", "3.14159265358979323846", "9007199254740993", "4.9406564584124654e-324", "1.7976931348623157", "100000000000000000000000", "0.1+0.2"])),
         1 => gen::data_statement(rng),
         2 => format!("DATA {}", rng.pick(&["hello \"there\"", "\"a\" ", "1,,2", " , ", "\"\"", "x\"y\"z, w", "inf, nan, -0, 1e400", "\"unterminated", "a:PRINT 1", "\"q\":PRINT 2", "é, \"日本\"", "\u{a0}\"x\"", "1,\u{3000}\"a,b\", END", "\x0b\"q, r\"", "\u{2003}\"em\" , \u{a0}7", "a\u{a0}, \u{a0}b", "  spaced  out  ", "1 2 3", "-", "+5, -.5, 5."])),
